@@ -1,7 +1,8 @@
 #!/bin/bash
-# usage: mrun.sh <TestRegex> [seed]
-python3 /verif/.work/mkoverlay.py; cd /verif/lean && lake build replay 2>&1 | grep -E "error" -A5 | head -20
-rm -f /verif/.work/m/t.jsonl; cd /repo && VERIF_OUT=/verif/.work/m/t.jsonl VERIF_SEED=${2:-1} GOFLAGS=-mod=mod GOPROXY=off go test -overlay /verif/.work/m/overlay.json -tags verif -count=1 -vet=off -run "$1" ${3:-./internal/app/} 2>&1 | tail -15; wc -l /verif/.work/m/t.jsonl; /verif/lean/.lake/build/bin/replay /verif/.work/m/t.jsonl > /verif/.work/m/sum.json; python3 - <<'PY'
+# usage: [VERIF_REPO=<tree>] mrun.sh <TestRegex> [seed] [pkg]   — development loop: one harness test, replay, summary
+R=${VERIF_REPO:-/repo}
+VERIF_REPO=$R python3 /verif/scripts/mkoverlay.py; cd /verif/lean && lake build replay 2>&1 | grep -E "error" -A5 | head -20
+rm -f /verif/.work/m/t.jsonl; cd $R && VERIF_OUT=/verif/.work/m/t.jsonl VERIF_SEED=${2:-1} GOFLAGS=-mod=mod GOPROXY=off go test -overlay /verif/.work/m/overlay.json -tags verif -count=1 -vet=off -run "$1" ${3:-./internal/app/} 2>&1 | tail -15; wc -l /verif/.work/m/t.jsonl; /verif/lean/.lake/build/bin/replay /verif/.work/m/t.jsonl > /verif/.work/m/sum.json; python3 - <<'PY'
 import json,re,collections
 s=json.load(open('/verif/.work/m/sum.json'))
 print({k:s[k] for k in ['lines','mismatches','violations','malformed','distinct','nontrivial']})
